@@ -175,6 +175,10 @@ func init() {
 					ja, _ := json.Marshal(ra["v"])
 					jb, _ := json.Marshal(rb["v"])
 					ra["bytes_same"] = ra["ok"] == rb["ok"] && string(ja) == string(jb) && ra["cond"] == rb["cond"]
+					// the same document again, at once: the answer is a function of the text
+					a2 := jres(env.LoadString("jx", fmt.Sprintf("(json:load-string jx-doc :string-numbers %s :exact-integers %s)", m.sn, m.ex)))
+					j2, _ := json.Marshal(a2["v"])
+					ra["again_same"] = ra["ok"] == a2["ok"] && string(ja) == string(j2) && ra["cond"] == a2["cond"]
 					loads[m.name] = ra
 				}
 				r["loads"] = loads
